@@ -59,7 +59,7 @@ PROPS = {
     },
     'C11': {
         'level': 'exploration',
-        'strata': [('copies-and-siblings', 'copies', 0.85), ('linker-checkpoints', 'linker', 0.15)],
+        'strata': [('copies-and-siblings', 'copies', 0.8), ('linker-checkpoints', 'linker', 0.1), ('copies-solved-inside-hooks', 'solver', 0.1)],
         'quick': 12000,
         'thorough': 250000,
     },
